@@ -47,6 +47,57 @@ theorem global_stage_frame (ws : List Write) (h : ∀ w ∈ ws, w.isGlobal = tru
     Frame false c (runStage ws o c).2 :=
   runWrites_frame_global ws h c
 
+/-- `GlobalPlacer::exportPlacement(circuit)` — the final export of global placement: the blend
+(binary32 arithmetic, `exportBlending` of any value) of ANY lower-bound / upper-bound vectors. -/
+theorem export_frame_global_blend (c : Circuit) (G : GlobalVectors) : Frame false c (exportGlobalBlend c G) :=
+  exportGlobalBlend_frame c G
+
+/-- `GlobalPlacer::place` as a whole, with or without a callback: any number of placements exposed
+through `GlobalPlacer::callback` (each one an export when a callback is installed, nothing
+otherwise), then the blended export — and any prefix of that sequence, which is what an exception
+(thrown by the callback at any index, or by the placer) leaves behind.  Positions of movable cells
+only; every orientation is kept. -/
+theorem global_place_frame (hasCallback : Bool) (exposed : List (List Rat × List Rat)) (G : GlobalVectors) (c : Circuit) :
+    Frame false c (placeGlobalBody hasCallback exposed G c) ∧
+    ∀ k, Frame false c (runWrites ((placeGlobalWrites hasCallback exposed G).take k) c) := by
+  refine ⟨?_, fun k => ?_⟩
+  · rw [placeGlobalBody_eq_writes]
+    exact runWrites_frame_global _ (placeGlobalWrites_isGlobal _ _ _) c
+  · exact runWrites_frame_global _ (fun w hw => placeGlobalWrites_isGlobal _ _ _ w (List.mem_of_mem_take hw)) c
+
+/-- `DetailedPlacer::place` as a whole (legalizer export, one export per callback, final export) and
+every prefix of it. -/
+theorem detailed_place_frame (hasCallback : Bool) (L : LegVectors) (exposed : List DetVectors) (D : DetVectors) (c : Circuit) :
+    Frame true c (placeDetailedBody hasCallback L exposed D c) ∧
+    ∀ k, Frame true c (runWrites ((placeDetailedWrites hasCallback L exposed D).take k) c) := by
+  refine ⟨?_, fun k => runWrites_frame _ c⟩
+  rw [placeDetailedBody_eq_writes]
+  exact runWrites_frame _ c
+
+/-- The wrappers `Circuit::placeGlobal / legalize / placeDetailed` (src/coloquinte.cpp): the
+`InUseGuard` sets `isInUse_` for the duration of the body and clears it when the call ends, by
+return or by exception; whatever the body (any sequence of exports, any outcome), the circuit
+satisfies the frame and the flag is `false` afterwards — equal to its value before the call
+whenever the circuit was not already being placed (C10 `busy_released` is the same fact on the
+translated API). -/
+theorem guarded_call_frame (ws : List Write) (o : Outcome) (s : Guarded) :
+    (withInUseGuard (runStage ws o) s).1 = o ∧
+    (withInUseGuard (runStage ws o) s).2.inUse = false ∧
+    (s.inUse = false → (withInUseGuard (runStage ws o) s).2.inUse = s.inUse) ∧
+    Frame true s.c (withInUseGuard (runStage ws o) s).2.c :=
+  ⟨rfl, rfl, fun h => h.symm ▸ rfl, runWrites_frame ws s.c⟩
+
+/-- non-vacuity of the callback path: with a callback the exposed placement is exported (the movable
+cell moves to round(5 − 0.5·2), round(6 − 0.5·4) before the final export overwrites it), without
+one it is not; `blendPlacement` with weight 1/2 of 3 and 4 is 3.5. -/
+example : (globalCallback true ⟨[⟨2, 4, 0, 0, .N, false, false, .ANY⟩], [], []⟩ [5] [6]).cells.map (fun cl => (cl.x, cl.y)) = [(4, 4)] ∧
+    (globalCallback false ⟨[⟨2, 4, 0, 0, .N, false, false, .ANY⟩], [], []⟩ [5] [6]).cells.map (fun cl => (cl.x, cl.y)) = [(0, 0)] := by
+  decide +kernel
+
+example : blendPlacement (1 / 2) [3] [4] = [7 / 2] ∧ blendPlacement 0 [3] [4] = [3] ∧ blendPlacement 1 [3] [4] = [4] ∧
+    blendEntry (1 / 10) 1 3 = 6 / 5 + 1 / 20971520 := by
+  decide +kernel
+
 /-- non-vacuity: the hypothesis of `global_stage_frame` is satisfiable, and the frame is not the
 identity — a movable cell really moves (and turns) while the fixed cell stays. -/
 example : ∀ w ∈ [Write.global [5, 5] [6, 6]], w.isGlobal = true := by simp [Write.isGlobal]
@@ -57,7 +108,15 @@ example :
       (fun cl => (cl.x, cl.y, cl.orient)) = [(7, 7, .E), (4, 5, .FS)] := by decide
 
 def _root_.ColoVerif.Gen.WriteSets.Target.allowed : Target → Bool
-  | .cellX_ | .cellY_ | .cellOrientation_ | .hasCellSizeUpdate_ | .hasNetUpdate_ => true
+  | .cellX_ | .cellY_ | .cellOrientation_ | .hasCellSizeUpdate_ | .hasNetUpdate_ | .isInUse_ => true
+  | _ => false
+
+def _root_.ColoVerif.Gen.WriteSets.Target.isInUse : Target → Bool
+  | .isInUse_ => true
+  | _ => false
+
+def _root_.ColoVerif.Gen.WriteSets.Kind.isScoped : Kind → Bool
+  | .scoped => true
   | _ => false
 
 def _root_.ColoVerif.Gen.WriteSets.Target.isCellVector : Target → Bool
@@ -76,22 +135,37 @@ def _root_.ColoVerif.Gen.WriteSets.Kind.isElement : Kind → Bool
   | .element => true
   | _ => false
 
-/-- Over the table regenerated from the source (every assignment to / mutation of a `Circuit`
-member and every non-const `Circuit` method call inside src/place_global and src/place_detailed):
-* every write targets one of `cellX_, cellY_, cellOrientation_, hasCellSizeUpdate_, hasNetUpdate_`;
-* nothing in src/place_global targets `cellOrientation_`, and place_global hands its circuit only to
-  place_global functions;
+/-- Over the table regenerated from the source — every assignment to / mutation of a `Circuit` member
+and every non-const `Circuit` method call inside the *analysed functions*: all of src/place_global and
+src/place_detailed plus every overload of the placement entry points `Circuit::place`, `placeGlobal`,
+`legalize`, `placeDetailed` (src/coloquinte.hpp, src/coloquinte.cpp):
+* every write targets one of `cellX_, cellY_, cellOrientation_, hasCellSizeUpdate_, hasNetUpdate_, isInUse_`;
+* nothing on the global-placement path (src/place_global and the overloads of `Circuit::placeGlobal`)
+  targets `cellOrientation_`, and that path hands its circuit only to functions on the same path;
 * every write to a cell vector is an element write inside a loop that skips fixed cells
   (`if (fixed(i)) continue;` before it, or inside `if (!fixed(i))`), indexed by the tested variable;
-* a non-const `Circuit &` is only ever handed to functions that are themselves in the table's scope;
-* the table is not empty (it contains cell-vector writes). -/
+* a non-const `Circuit &` (or `*this`) is only ever handed to functions that are themselves analysed;
+* the table is not empty (it contains cell-vector writes);
+* `isInUse_` is written only through a scoped flag guard (an automatic `InUseGuard` object of the
+  function body: set by its constructor, cleared by its destructor on return and on exception — the
+  translator checks the class has exactly that shape), and nothing else is written that way;
+* the three wrappers (and whatever overloads exist) were found and analysed (the translator fails otherwise);
+* nowhere in /repo/src is there a `const_cast`, `reinterpret_cast`, C-style pointer/reference cast or a
+  `mutable` field of `Circuit`, so the const `Circuit` methods the analysed functions reach
+  (`reachedConstMethods`) and every function given a `const Circuit &` cannot write a member.
+Together: on any path of a placement call inside the library, every write to a `Circuit` member is a
+row of `writeSites`.  (The user's callback is user code.) -/
 theorem writes_table_closed :
     (∀ s ∈ writeSites, s.target.allowed = true) ∧
     (∀ s ∈ writeSites, s.inPlaceGlobal = true → s.target.isOrientation = false) ∧
     (∀ h ∈ handOvers, h.inPlaceGlobal = true → h.calleeInPlaceGlobal = true) ∧
     (∀ s ∈ writeSites, s.target.isCellVector = true → s.guard.protects = true ∧ s.kind.isElement = true) ∧
     (∀ h ∈ handOvers, h.calleeAnalysed = true) ∧
-    (writeSites.any (fun s => s.target.isCellVector)) = true := by
+    (writeSites.any (fun s => s.target.isCellVector)) = true ∧
+    (∀ s ∈ writeSites, s.target.isInUse = true ↔ s.kind.isScoped = true) ∧
+    (writeSites.any (fun s => s.target.isInUse)) = true ∧
+    3 ≤ entryPoints.length ∧
+    constEscapes.length = 0 := by
   decide
 
 end ColoVerif.C03
